@@ -57,6 +57,12 @@ def seed_library(rng):
     torch.manual_seed(int(rng))
     numpy.random.seed(int(rng) % (2 ** 32))
     random.seed(int(rng))
+    try:    # trimesh draws from its own module-level Generator (seeded from OS entropy)
+        import trimesh.util
+        if hasattr(trimesh.util, "_RANDOM_DEFAULT"):
+            trimesh.util._RANDOM_DEFAULT = numpy.random.default_rng(int(rng))
+    except ImportError:
+        pass
 
 
 def canon(obj):
@@ -110,6 +116,86 @@ def lib_frame(tb_exc):
     return best or "?"
 
 
+class BudgetExceeded(Exception):
+    """deterministic resource budget of one library call exhausted (DESIGN 3.4)"""
+
+
+class WallClockExceeded(BaseException):
+    """generous wall-clock cap of one library call hit: the case is inconclusive, not a violation"""
+
+
+class _Budget:
+    """Counts random draws requested by the library during one `ctx.lib` block.  The library's
+    retry loops all draw fresh random numbers per round, so a bounded number of draws bounds
+    the number of rounds without consulting the clock."""
+    MAX_CALLS = 4000
+    MAX_ELEMS = 2 * 10 ** 7
+    WALL_S = 60
+    installed = False
+    active = False
+    calls = 0
+
+    @classmethod
+    def install(cls):
+        if cls.installed:
+            return
+        cls.installed = True
+        import numpy
+        import torch
+
+        def wrap(mod, name, size_of):
+            orig = getattr(mod, name)
+
+            def counted(*a, **k):
+                if cls.active:
+                    cls.calls += 1
+                    n = size_of(a, k)
+                    if cls.calls > cls.MAX_CALLS or n > cls.MAX_ELEMS:
+                        cls.active = False
+                        raise BudgetExceeded(f"{name}: call #{cls.calls}, {n} elements requested")
+                return orig(*a, **k)
+            counted.__wrapped__ = orig
+            setattr(mod, name, counted)
+
+        def tsize(a, k):
+            sz = a[0] if a and isinstance(a[0], (tuple, list, torch.Size)) else a
+            n = 1
+            for v in sz:
+                if isinstance(v, int):
+                    n *= max(v, 0)
+            return n
+        wrap(torch, "rand", tsize)
+        wrap(torch, "rand_like", lambda a, k: a[0].numel() if a else 0)
+        wrap(torch, "randperm", lambda a, k: a[0] if a and isinstance(a[0], int) else 0)
+
+        def nsize(a, k):
+            import numpy as np
+            sz = a[0] if a else k.get("size", 1)
+            try:
+                return int(np.prod(sz)) if sz is not None else 1
+            except Exception:   # noqa: BLE001
+                return 1
+        wrap(numpy.random, "random", nsize)
+
+    @classmethod
+    def start(cls):
+        cls.install()
+        cls.calls = 0
+        cls.active = True
+        import signal
+
+        def on_alarm(signum, frame):
+            raise WallClockExceeded()
+        signal.signal(signal.SIGALRM, on_alarm)
+        signal.alarm(cls.WALL_S)
+
+    @classmethod
+    def stop(cls):
+        import signal
+        signal.alarm(0)
+        cls.active = False
+
+
 class KnownFindings:
     def __init__(self, prop, path=None):
         path = path or os.environ.get("VERIF_KNOWN") or os.path.join(VERIF, "known_findings.json")
@@ -161,12 +247,28 @@ class Ctx:
     def lib(self, label, feature=None, ok=()):
         """Library call that must return: any exception is a `crash` violation (DESIGN 3.6).
         Exceptions of the types in `ok` are re-raised for the caller to handle."""
+        nested = _Budget.active
         try:
-            yield
+            if not nested:
+                _Budget.start()
+            try:
+                yield
+            finally:
+                if not nested:
+                    _Budget.stop()
         except ok:
             raise
-        except (Violation, HarnessError, KeyboardInterrupt):
+        except (Violation, HarnessError, KeyboardInterrupt, CaseAborted):
             raise
+        except WallClockExceeded:
+            self.inconclusive_case("wall-clock:" + label)
+            raise CaseAborted()
+        except BudgetExceeded as e:
+            fr = lib_frame(e)
+            self.violation("nontermination", f"{fr}" + (f"|{feature}" if feature else ""),
+                           f"{label}: random-draw budget exhausted ({e}); the call does not terminate "
+                           f"within {_Budget.MAX_CALLS} sampling rounds")
+            raise CaseAborted() from e
         except Exception as e:   # noqa: BLE001 - deliberate: the contract is "returns"
             fr = lib_frame(e)
             feat = f"{type(e).__name__}@{fr}" + (f"|{feature}" if feature else "")
@@ -238,6 +340,10 @@ def hypothesis_search(mod, ctx, tier, seed, examples, shrink=True, max_buckets=4
     import hypothesis
     from hypothesis import HealthCheck, Phase, given, settings
 
+    # bound the shrinker: it only affects how small the reported reproduction is
+    from hypothesis.internal.conjecture import engine as _engine
+    _engine.MAX_SHRINKS = 80 if tier == "quick" else 300
+    _engine.MAX_SHRINKING_SECONDS = 25 if tier == "quick" else 120
     found = []
     suppressed = set()
     phases = [Phase.explicit, Phase.generate, Phase.target]
@@ -267,12 +373,33 @@ def hypothesis_search(mod, ctx, tier, seed, examples, shrink=True, max_buckets=4
         try:
             test()
             break
-        except Violation as v:
+        except BaseException as e:   # noqa: BLE001 - Hypothesis wraps unreliable failures in groups
+            v = _extract_violation(e)
+            if v is None:
+                raise
+            if not isinstance(e, Violation):
+                v.detail = "[did not reproduce on immediate re-execution: Hypothesis reported Flaky] " + v.detail
             found.append(v)
             suppressed.add(v.signature)
             # continue the search behind this finding with what is left of the budget
             budget = max(examples // 4, examples - (ctx.evaluations - before))
     return found
+
+
+def _extract_violation(e, depth=0):
+    if isinstance(e, Violation):
+        return e
+    if depth > 6 or e is None:
+        return None
+    for sub in getattr(e, "exceptions", ()) or ():
+        v = _extract_violation(sub, depth + 1)
+        if v is not None:
+            return v
+    for sub in (e.__cause__, e.__context__):
+        v = _extract_violation(sub, depth + 1)
+        if v is not None:
+            return v
+    return None
 
 
 def write_replay(v, tier, seed):
